@@ -2,7 +2,7 @@
 
 Differential: the same configuration and history run through an optimizer built with ShampooPT2CompileConfig (backends that preserve eager numerics:
 "eager" and "aot_eager"; static / dynamic / auto-dynamic shape modes) and through the uncompiled optimizer; parameters and every state tensor must be
-bitwise equal after every step.  Guard against vacuity: torch._dynamo's counters must show compiled frames, otherwise the case is reported as
+equal after every step (integer state bitwise, floating-point state within 64 ulp x conditioning: torch.compile re-rounds a few fused in-place ops).  Guard against vacuity: torch._dynamo's counters must show compiled frames, otherwise the case is reported as
 uninformative.  torch._dynamo.reset() at the top of every case.
 """
 from __future__ import annotations
@@ -16,7 +16,7 @@ from ..core import Outcome, Stream
 
 LEVEL = "exploration"
 RULE = (
-    "bitwise comparison for backend eager; 64 ulp x conditioning for aot_eager (AOTAutograd re-rounds decomposed fused ops). "
+    "64 ulp x conditioning for both backends (Dynamo rewrites add_(alpha=) and AOTAutograd decomposes fused in-place ops: single-ulp differences on the unchanged tree); integer state bitwise. "
     "case = (backend eager | aot_eager, shape mode static | dynamic | auto, optimizer configuration covering weight-decay modes, filtering on/off, beta3, bias "
     "correction, every grafting type or none, momentum / Nesterov, Shampoo and SOAP, 1-3 parameter shapes, history of 4-8 steps crossing start_preconditioning_step "
     "with refresh and non-refresh steps, presence-mask changes and lr / weight-decay edits). Non-trivial = dynamo compiled >= 1 frame and the history contains a "
@@ -68,10 +68,11 @@ def oracle(case: dict) -> Outcome:
     tol = 0.0
 
     def same(x: torch.Tensor, y: torch.Tensor) -> bool:
-        """backend "eager" (Dynamo only): bitwise.  "aot_eager": AOTAutograd decomposes fused in-place ops such as add_(x, alpha=c) and lerp_ into separately
-        rounded primitives, so single-ulp differences exist on the unchanged tree (corrected eigenvalues: 0x1.c36cacp+7 vs 0x1.c36caep+7); equality is
-        asserted up to 64 ulp times the amplification of the amortized computation (conditioning of refreshed factors)."""
-        if case["backend"] == "eager" or not x.dtype.is_floating_point:
+        """Neither backend is bitwise: Dynamo itself rewrites `x.add_(y, alpha=c)` into `x.add_(y * c)` (torch/_dynamo/variables/tensor.py), and AOTAutograd
+        decomposes further fused in-place ops (lerp_, addcdiv_) into separately rounded primitives, so single-ulp differences exist on the unchanged tree even
+        for backend "eager" (SOAP corrected eigenvalues: 0x1.5b7144p-2 vs 0x1.5b7146p-2; reproduced with a three-line torch.compile example without Shampoo).
+        Equality is asserted up to 64 ulp times the amplification of the amortized computation (conditioning of refreshed factors); integer tensors bitwise."""
+        if not x.dtype.is_floating_point:
             return rm.bitwise_equal(x, y)
         if x.shape != y.shape:
             return False
@@ -102,7 +103,7 @@ def oracle(case: dict) -> Outcome:
         prev = s["mask"]
         if A.t[0] >= eff["start"]:
             crossed = True
-        if case["backend"] != "eager":
+        if True:
             from . import c05
 
             amp = max(amp, c05._amplification(B.opt, B.all_params(), eff))
